@@ -96,6 +96,12 @@ def handwritten():
     # blank / blank-padded chunk-size lines (skipped by the response parser), chunk extensions, trailers
     S.append(({}, [(REQ, get), (RES, b'HTTP/1.1 200 OK\r\nTransfer-Encoding: chunked\r\n\r\n\r\n\r\n \r\n\r\n3\r\nabc\r\n\r\n\r\n 2;x=y\r\nde\r\n0\r\nT: 1\r\n\r\n'), (CLOSE, None)]))
     S.append(({}, [(REQ, get), (RES, b'HTTP/1.1 200 OK\r\nTransfer-Encoding: chunked\r\n\r\n\n\n\n1\na\n\n\n0\n\n'), (CLOSE, None)]))
+    # request parsing stopped in the middle of a header / trailer block (a line begun in one piece runs over the hard limit in the next), then responses without requests
+    # (FX-C01-stale-receiver-flush: the abandoned header data receiver was flushed from a request chunk long gone)
+    ok = res([b'Content-Length: 0'])
+    S.append(({}, [(REQ, b'GET /a HTTP/1.1\r\nHost: h\r\nX-A: 1\r\nX-B: '), (REQ, b'/' * 40000 + b'\r\n'), (REQ, b'zz'), (RES, ok), (RES, ok), (RES, ok), (RES, ok), (CLOSE, None)]))
+    S.append(({}, [(REQ, b'POST /a HTTP/1.1\r\nHost: h\r\nTransfer-Encoding: chunked\r\n\r\n1\r\na\r\n0\r\nT: 1\r\nU: '), (REQ, b'/' * 40000 + b'\r\n'), (RES, ok), (RES, ok),
+                   (RES, ok), (CLOSE, None)]))
     return S
 
 
